@@ -314,7 +314,7 @@ def stepCallR (s : State) (t : Nat) (op : ROp) : Option State :=
       match s.fut with
       | some fu =>
         some { s0 with rform := .pollPre, rmax := fu.max, rsingle := fu.single, rexec := false,
-                       rwaker := .fut fu.id, wakes := upd s.wakes fu.id 0, rpc := .closedLoad }
+                       rwaker := .fut fu.id, rpc := .closedLoad }
       | none => none
     | .dropFut =>
       match s.fut with
